@@ -50,6 +50,7 @@ type Solver struct {
 	pushDecl []string
 	base     strings.Builder // transcript of base-level declarations, definitions and assertions
 	Fallbacks int
+	AbsQueries, AbsUnsat int // sum abstraction (sumabs.go)
 	// stats
 	Queries   int
 	fbTimeout time.Duration
@@ -171,6 +172,7 @@ func (s *Solver) define(t *Term) {
 			fmt.Fprintf(&sb, "(define-fun t%d () %s %s)\n", x.id, sortStr(x.w), x.body())
 		default:
 			fmt.Fprintf(&sb, "(define-fun t%d () %s %s)\n", x.id, sortStr(x.w), x.body())
+			sb.WriteString(s.store.boundLemma(x)) // redundant range lemma (bounds.go)
 		}
 		stack = stack[:len(stack)-1]
 	}
@@ -198,6 +200,16 @@ func (s *Solver) readLine() (string, error) {
 // Check decides pc ∧ extra (extra may be nil). With keep=true and result Sat the solver state
 // stays inside the push so that GetValues can be called; the caller must then call Pop.
 func (s *Solver) Check(pc []*Term, extra *Term, keep bool) (SatResult, error) {
+	if optSumAbs {
+		// sumabs.go: unsat under abstraction is unsat; a model of the abstraction is tried as a hint
+		if r, _ := s.abstractQuery(pc, extra); r == Unsat {
+			return Unsat, nil
+		}
+	}
+	return s.checkRaw(pc, extra, keep, "")
+}
+
+func (s *Solver) checkRaw(pc []*Term, extra *Term, keep bool, hints string) (SatResult, error) {
 	s.AssertPC(pc)
 	if extra != nil {
 		s.define(extra)
@@ -207,6 +219,7 @@ func (s *Solver) Check(pc []*Term, extra *Term, keep bool) (SatResult, error) {
 	if extra != nil {
 		s.send("(assert " + extra.ref() + ")\n")
 	}
+	s.send(hints)
 	t0 := time.Now()
 	s.send("(check-sat)\n")
 	s.Queries++
@@ -242,8 +255,14 @@ func (s *Solver) Check(pc []*Term, extra *Term, keep bool) (SatResult, error) {
 	}
 	s.SolveTime += time.Since(t0)
 	slowQuery(t0, res, extra)
+	if s.log != nil {
+		fmt.Fprintf(s.log, "; -> %v in %.2fs\n", res, time.Since(t0).Seconds())
+	}
 	if res == Unknown {
 		s.Pop()
+		if hints != "" {
+			return Unknown, nil
+		}
 		t1 := time.Now()
 		r2, _, err := s.fallback(extra, nil)
 		s.SolveTime += time.Since(t1)
@@ -264,6 +283,15 @@ func (s *Solver) Check(pc []*Term, extra *Term, keep bool) (SatResult, error) {
 
 // CheckModel decides pc ∧ extra and, when satisfiable, returns the model values of ts.
 func (s *Solver) CheckModel(pc []*Term, extra *Term, ts []*Term) (SatResult, []ModelVal, error) {
+	if optSumAbs {
+		if r, _ := s.abstractQuery(pc, extra); r == Unsat {
+			return Unsat, nil, nil
+		}
+	}
+	return s.checkModelRaw(pc, extra, ts, "")
+}
+
+func (s *Solver) checkModelRaw(pc []*Term, extra *Term, ts []*Term, hints string) (SatResult, []ModelVal, error) {
 	s.AssertPC(pc)
 	if extra != nil {
 		s.define(extra)
@@ -273,6 +301,7 @@ func (s *Solver) CheckModel(pc []*Term, extra *Term, ts []*Term) (SatResult, []M
 	if extra != nil {
 		s.send("(assert " + extra.ref() + ")\n")
 	}
+	s.send(hints)
 	t0 := time.Now()
 	s.send("(check-sat)\n")
 	s.Queries++
@@ -296,6 +325,9 @@ func (s *Solver) CheckModel(pc []*Term, extra *Term, ts []*Term) (SatResult, []M
 		return Unsat, nil, nil
 	}
 	s.Pop()
+	if hints != "" {
+		return Unknown, nil, nil
+	}
 	t1 := time.Now()
 	r2, mv, err := s.fallback(extra, ts)
 	s.SolveTime += time.Since(t1)
@@ -448,6 +480,7 @@ func (s *Solver) captureDefs(ts []*Term) string {
 			fmt.Fprintf(&sb, "(define-fun t%d () %s %s)\n", x.id, sortStr(x.w), x.body())
 		default:
 			fmt.Fprintf(&sb, "(define-fun t%d () %s %s)\n", x.id, sortStr(x.w), x.body())
+			sb.WriteString(s.store.boundLemma(x))
 		}
 	}
 	for _, t := range ts {
